@@ -20,8 +20,9 @@ def probeDue (lastThrottled : Option Nat) (now : Nat) : Bool :=
 /-- threshold of the draw under total failure: `(n-5)/(n+1)` -/
 def totalFailureRatio (n : Nat) : Rat := (((n : Int) - 5 : Int) : Rat) / ((n + 1 : Nat) : Rat)
 
-/-- the visible window shows total failure: nothing accepted, no working bucket, more than 5 calls -/
-def totalFailure (h : WinRes) : Prop := h.accepts = 0 ∧ h.workingBuckets = 0 ∧ h.total > 5
+/-- the window shows total failure: nothing accepted, more than 5 calls.  (Then no bucket can be a "working"
+bucket — `summarize_wb` — so the monitor does not need, and does not trust, the implementation's bucket classes.) -/
+def totalFailure (h : WinRes) : Prop := h.accepts = 0 ∧ h.total > 5
 
 instance (h : WinRes) : Decidable (totalFailure h) := by unfold totalFailure; exact inferInstance
 
